@@ -129,4 +129,32 @@ def onRecv (st : St) (d : List Byte) : String ⊕ (St × List Event) :=
     | .uninit _ => .inl "uninitialised-read"
     | .diverge _ => .inl "unbounded-recursion"
 
+/-! ### as found before patches/C15-03: the callback ran while its lookup was still in `requests_`
+
+`if (req->cb) req->cb(result); deleteRequest(req_id);` — a `cancel` of the own id from inside the
+callback found the entry and erased the map node holding the `std::function` that was executing:
+outcome `none` = use of a destroyed callable (heap-use-after-free as soon as the callback touches
+a capture). -/
+
+def runScriptOld (self : Nat) : St → List Act → Option (St × List (Act × Nat))
+  | st, [] => some (st, [])
+  | st, a :: as =>
+    let target : Option Nat := match a with
+      | .cancel id => some id
+      | .cancelSelf => some self
+      | .lookup _ => none
+    if target = some self ∧ (find st.reqs self).isSome then none      -- destroys the running callable
+    else
+      let (st1, ret) : St × Nat :=
+        match a with
+        | .lookup sid => lookup st sid
+        | .cancel id => let (s, b) := cancel st id; (s, if b then 1 else 0)
+        | .cancelSelf => let (s, b) := cancel st self; (s, if b then 1 else 0)
+      (runScriptOld self st1 as).map fun (st2, outs) => (st2, (a, ret) :: outs)
+
+def finishOld (st : St) (id : Nat) (r : Req) (res : Result) : Option (St × List Event) :=
+  (runScriptOld id st r.script).map fun (st1, outs) =>
+    ({ st1 with reqs := erase st1.reqs id, called := st1.called ++ [r.serial] },
+     [⟨r.serial, res, outs, st.now - r.born⟩])
+
 end Tbox.C15.Orig
